@@ -60,12 +60,12 @@ def run(ctx: common.Ctx):
     for si, shape in enumerate(shapes):
         for dj in range(3 if quick else len(dts)):
             d = dts[(si * 5 + dj * 7 + ctx.seed) % len(dts)]
-            for kind in ("eager", "lazy-static", "lazy-symbolic", "lazy-unknown", "eager-copy", "lazy-derived", "eager-updated-lazy"):
+            for kind in ("eager", "lazy-static", "lazy-symbolic", "lazy-unknown", "eager-copy", "lazy-derived", "eager-updated-lazy", "eager-reshaped"):
                 rows.append((d, shape, kind))
     lines, infos = [], []
     # arrays with a history behave like the plain kind they denote: a copy of data holds data; a value derived from a
     # placeholder, and a data-holding array updated in place with a placeholder, hold none (static shape known)
-    BASE = {"eager-copy": "eager", "lazy-derived": "lazy-static", "eager-updated-lazy": "lazy-static"}
+    BASE = {"eager-copy": "eager", "lazy-derived": "lazy-static", "eager-updated-lazy": "lazy-static", "eager-reshaped": "eager"}
     rows = [(d, shape, kind) for d, shape, kind in rows]
     for d, shape, kind0 in rows:
         kind = BASE.get(kind0, kind0)
@@ -94,6 +94,14 @@ def run(ctx: common.Ctx):
                 a = ndx.asarray(val).copy()
             elif kind0 == "lazy-derived":
                 a = ndx.array(shape=shape, dtype=impl.dt(d))[...].copy()
+            elif kind0 == "eager-reshaped":
+                # a data-holding array whose extents were looked at, then reshaped in place (explicit copy=False)
+                size = int(np.prod(shape)) if shape else 1
+                orig = (size,) if len(shape) != 1 else (1, size)
+                a = ndx.asarray(val.reshape(orig))
+                attempt(len, a); a.shape; a.ndim; attempt(iterate, a)
+                if ndx.reshape(a, tuple(shape), copy=False) is not a:
+                    raise RuntimeError("reshape(copy=False) did not act in place")
             elif kind0 == "eager-updated-lazy":
                 a = ndx.asarray(val)
                 a.to_numpy()
